@@ -1230,7 +1230,10 @@ class SuccessionDiagram:
         Expand the succession diagram and search for attractors using default methods.
         """
         self.expand_block()
-        for node_id in self.node_ids():
+        # Only expanded nodes are considered: block expansion can leave unexpanded
+        # stubs whose attractors are all found in other (expanded) nodes. Searching
+        # the stubs as well would report these attractors a second time.
+        for node_id in self.expanded_ids():
             self.node_attractor_seeds(node_id, compute=True)
 
     def expand_scc(self, find_motif_avoidant_attractors: bool = True) -> bool:
